@@ -6,45 +6,6 @@
 
 package main
 
-// container/heap on a pqueue (assumed, like heap.Remove in
-// zz_verif_contracts.go; rely/guarantee on the five pqueue methods proved
-// there). PQ is the heap the call works on.
-// Pop: takes out one item that was on the heap and marks it off-heap; every
-// other item stays on the heap, the slots keep knowing their items.
-//@ func heap.Pop
-//@   trusted
-//@   flag only_for=main.(*Queue)
-//@   requires typeis(h, "*pqueue") && as(h, "*pqueue") != nil && okPQ(deref(as(h, "*pqueue"))) && len(deref(as(h, "*pqueue"))) > 0
-//@   ensures typeis(result, "*queueItem") && as(result, "*queueItem") != nil && as(result, "*queueItem").heapIdx == -1
-//@   ensures exists k int :: 0 <= k && k < old(len(deref(as(h, "*pqueue")))) && as(result, "*queueItem") == old(deref(as(h, "*pqueue"))[k])
-//@   ensures okPQ(deref(as(h, "*pqueue"))) && len(deref(as(h, "*pqueue"))) == old(len(deref(as(h, "*pqueue")))) - 1
-//@   ensures forall k int :: 0 <= k && k < old(len(deref(as(h, "*pqueue")))) && old(deref(as(h, "*pqueue"))[k]) != as(result, "*queueItem") ==> old(deref(as(h, "*pqueue"))[k]).heapIdx >= 0 && old(deref(as(h, "*pqueue"))[k]).heapIdx < len(deref(as(h, "*pqueue"))) && deref(as(h, "*pqueue"))[old(deref(as(h, "*pqueue"))[k]).heapIdx] == old(deref(as(h, "*pqueue"))[k])
-//@   ensures forall p *queueItem :: {p.heapIdx} p != nil && old(p.heapIdx) < 0 ==> p.heapIdx == old(p.heapIdx)
-//@   assigns deref(as(h, "*pqueue")), deref(as(h, "*pqueue"))[*], fieldof(queueItem, heapIdx)
-
-// Push: puts an off-heap item on the heap; everything that was on it stays.
-//@ func heap.Push
-//@   trusted
-//@   flag only_for=main.(*Queue)
-//@   requires typeis(h, "*pqueue") && as(h, "*pqueue") != nil && okPQ(deref(as(h, "*pqueue")))
-//@   requires typeis(x, "*queueItem") && as(x, "*queueItem") != nil && as(x, "*queueItem").heapIdx < 0
-//@   ensures okPQ(deref(as(h, "*pqueue"))) && len(deref(as(h, "*pqueue"))) == old(len(deref(as(h, "*pqueue")))) + 1
-//@   ensures as(x, "*queueItem").heapIdx >= 0 && as(x, "*queueItem").heapIdx < len(deref(as(h, "*pqueue"))) && deref(as(h, "*pqueue"))[as(x, "*queueItem").heapIdx] == as(x, "*queueItem")
-//@   ensures forall k int :: 0 <= k && k < old(len(deref(as(h, "*pqueue")))) ==> old(deref(as(h, "*pqueue"))[k]).heapIdx >= 0 && old(deref(as(h, "*pqueue"))[k]).heapIdx < len(deref(as(h, "*pqueue"))) && deref(as(h, "*pqueue"))[old(deref(as(h, "*pqueue"))[k]).heapIdx] == old(deref(as(h, "*pqueue"))[k])
-//@   ensures forall p *queueItem :: {p.heapIdx} p != nil && p != as(x, "*queueItem") && old(p.heapIdx) < 0 ==> p.heapIdx == old(p.heapIdx)
-//@   assigns deref(as(h, "*pqueue")), deref(as(h, "*pqueue"))[*], fieldof(queueItem, heapIdx)
-
-// Fix: re-establishes the order after the item in slot i changed; the same
-// items stay on the heap.
-//@ func heap.Fix
-//@   trusted
-//@   flag only_for=main.(*Queue)
-//@   requires typeis(h, "*pqueue") && as(h, "*pqueue") != nil && okPQ(deref(as(h, "*pqueue"))) && 0 <= i && i < len(deref(as(h, "*pqueue")))
-//@   ensures okPQ(deref(as(h, "*pqueue"))) && len(deref(as(h, "*pqueue"))) == old(len(deref(as(h, "*pqueue"))))
-//@   ensures forall k int :: 0 <= k && k < old(len(deref(as(h, "*pqueue")))) ==> old(deref(as(h, "*pqueue"))[k]).heapIdx >= 0 && old(deref(as(h, "*pqueue"))[k]).heapIdx < len(deref(as(h, "*pqueue"))) && deref(as(h, "*pqueue"))[old(deref(as(h, "*pqueue"))[k]).heapIdx] == old(deref(as(h, "*pqueue"))[k])
-//@   ensures forall p *queueItem :: {p.heapIdx} p != nil && old(p.heapIdx) < 0 ==> p.heapIdx == old(p.heapIdx)
-//@   assigns deref(as(h, "*pqueue")), deref(as(h, "*pqueue"))[*], fieldof(queueItem, heapIdx)
-
 // The item constructor stored in the queue: a new off-heap item for that id.
 //@ func main.Queue.newQueueItem(repoID)
 //@   ensures result != nil && fresh(result) && result.repoID == repoID && result.heapIdx == -1
@@ -133,3 +94,108 @@ package main
 //@ func main.lessQueueItemPriority#formula
 //@   extends main.lessQueueItemPriority
 //@   ensures result == qLess(x, y)
+
+// ---------------------------------------------------------------------------
+// container/heap itself (the library source of the toolchain), verified over
+// what the five pqueue methods guarantee. HQ(h) is the pqueue behind h.
+// "kept": every item that was on the heap is on it afterwards, in the slot its
+// heapIdx names; items that were off the heap are not touched.
+// ---------------------------------------------------------------------------
+//@ pure func HQ(h heap.Interface) pqueue = deref(as(h, "*pqueue"))
+//@ pure func isPQ(h heap.Interface) bool = typeis(h, "*pqueue") && as(h, "*pqueue") != nil
+
+// The interface methods as container/heap sees them (these restate, through
+// the interface, the contracts proved for pqueue's methods in
+// zz_verif_contracts.go).
+//@ func heap.Interface.Len()
+//@   requires isPQ(recv)
+//@   ensures result == len(HQ(recv))
+//@   assigns nothing
+//@ func heap.Interface.Less(i, j)
+//@   requires isPQ(recv) && okPQ(HQ(recv)) && 0 <= i && i < len(HQ(recv)) && 0 <= j && j < len(HQ(recv))
+//@   assigns nothing
+//@ func heap.Interface.Swap(i, j)
+//@   requires isPQ(recv) && okPQ(HQ(recv)) && 0 <= i && i < len(HQ(recv)) && 0 <= j && j < len(HQ(recv))
+//@   ensures okPQ(HQ(recv)) && len(HQ(recv)) == old(len(HQ(recv)))
+//@   ensures HQ(recv)[i] == old(HQ(recv)[j]) && HQ(recv)[j] == old(HQ(recv)[i])
+//@   ensures forall k int :: 0 <= k && k < len(HQ(recv)) && k != i && k != j ==> HQ(recv)[k] == old(HQ(recv)[k])
+//@   ensures forall p *queueItem :: {p.heapIdx} p != nil && p != old(HQ(recv)[i]) && p != old(HQ(recv)[j]) ==> p.heapIdx == old(p.heapIdx)
+//@   assigns HQ(recv)[*], fieldof(queueItem, heapIdx)
+
+//@ func heap.up
+//@   requires isPQ(h) && okPQ(HQ(h)) && 0 <= j && j < len(HQ(h))
+//@   let N = len(HQ(h))
+//@   let J = j
+//@   loop 1:
+//@     invariant okPQ(HQ(h)) && len(HQ(h)) == N && 0 <= j && j <= J
+//@     invariant forall k int :: J < k && k < N ==> HQ(h)[k] == old(HQ(h)[k])
+//@     invariant forall k int :: 0 <= k && k < N ==> old(HQ(h)[k]).heapIdx >= 0 && old(HQ(h)[k]).heapIdx < N && HQ(h)[old(HQ(h)[k]).heapIdx] == old(HQ(h)[k])
+//@     invariant forall p *queueItem :: {p.heapIdx} p != nil && old(p.heapIdx) < 0 ==> p.heapIdx == old(p.heapIdx)
+//@     decreases j
+//@     assigns HQ(h)[*], fieldof(queueItem, heapIdx)
+//@   ensures okPQ(HQ(h)) && len(HQ(h)) == N
+//@   ensures forall k int :: 0 <= k && k < N ==> old(HQ(h)[k]).heapIdx >= 0 && old(HQ(h)[k]).heapIdx < N && HQ(h)[old(HQ(h)[k]).heapIdx] == old(HQ(h)[k])
+//@   ensures forall k int :: J < k && k < N ==> HQ(h)[k] == old(HQ(h)[k])
+//@   ensures forall p *queueItem :: {p.heapIdx} p != nil && old(p.heapIdx) < 0 ==> p.heapIdx == old(p.heapIdx)
+//@   assigns HQ(h)[*], fieldof(queueItem, heapIdx)
+
+//@ func heap.down
+//@   requires isPQ(h) && okPQ(HQ(h)) && 0 <= i0 && 0 <= n && n <= len(HQ(h)) && (i0 < n || n == 0 || i0 < len(HQ(h)))
+//@   let N = len(HQ(h))
+//@   loop 1:
+//@     invariant okPQ(HQ(h)) && len(HQ(h)) == N && i0 <= i && (i < n || i == i0)
+//@     invariant forall k int :: 0 <= k && k < N ==> old(HQ(h)[k]).heapIdx >= 0 && old(HQ(h)[k]).heapIdx < N && HQ(h)[old(HQ(h)[k]).heapIdx] == old(HQ(h)[k])
+//@     invariant forall k int :: n <= k && k < N ==> HQ(h)[k] == old(HQ(h)[k])
+//@     invariant forall p *queueItem :: {p.heapIdx} p != nil && old(p.heapIdx) < 0 ==> p.heapIdx == old(p.heapIdx)
+//@     decreases n - i
+//@     assigns HQ(h)[*], fieldof(queueItem, heapIdx)
+//@   ensures okPQ(HQ(h)) && len(HQ(h)) == N
+//@   ensures forall k int :: 0 <= k && k < N ==> old(HQ(h)[k]).heapIdx >= 0 && old(HQ(h)[k]).heapIdx < N && HQ(h)[old(HQ(h)[k]).heapIdx] == old(HQ(h)[k])
+//@   ensures forall k int :: n <= k && k < N ==> HQ(h)[k] == old(HQ(h)[k])
+//@   ensures forall p *queueItem :: {p.heapIdx} p != nil && old(p.heapIdx) < 0 ==> p.heapIdx == old(p.heapIdx)
+//@   assigns HQ(h)[*], fieldof(queueItem, heapIdx)
+
+//@ func heap.Interface.Push(x)
+//@   requires isPQ(recv) && okPQ(HQ(recv)) && typeis(x, "*queueItem") && as(x, "*queueItem") != nil
+//@   requires forall k int :: 0 <= k && k < len(HQ(recv)) ==> HQ(recv)[k] != as(x, "*queueItem")
+//@   ensures okPQ(HQ(recv)) && len(HQ(recv)) == old(len(HQ(recv))) + 1 && HQ(recv)[len(HQ(recv))-1] == as(x, "*queueItem")
+//@   ensures forall k int :: 0 <= k && k < old(len(HQ(recv))) ==> HQ(recv)[k] == old(HQ(recv)[k])
+//@   ensures forall p *queueItem :: {p.heapIdx} p != nil && p != as(x, "*queueItem") ==> p.heapIdx == old(p.heapIdx)
+//@   assigns deref(as(recv, "*pqueue")), anyelem("*queueItem"), fieldof(queueItem, heapIdx)
+//@ func heap.Interface.Pop()
+//@   requires isPQ(recv) && okPQ(HQ(recv)) && len(HQ(recv)) > 0
+//@   ensures okPQ(HQ(recv)) && len(HQ(recv)) == old(len(HQ(recv))) - 1
+//@   ensures forall k int :: 0 <= k && k < len(HQ(recv)) ==> HQ(recv)[k] == old(HQ(recv)[k])
+//@   ensures typeis(result, "*queueItem") && as(result, "*queueItem") == old(HQ(recv)[len(HQ(recv))-1]) && as(result, "*queueItem").heapIdx == -1
+//@   ensures forall p *queueItem :: {p.heapIdx} p != nil && p != as(result, "*queueItem") ==> p.heapIdx == old(p.heapIdx)
+//@   assigns deref(as(recv, "*pqueue")), fieldof(queueItem, heapIdx)
+
+// Push: puts an off-heap item on the heap; everything that was on it stays.
+//@ func heap.Push
+//@   requires isPQ(h) && okPQ(HQ(h))
+//@   requires typeis(x, "*queueItem") && as(x, "*queueItem") != nil && as(x, "*queueItem").heapIdx < 0
+//@   ensures okPQ(HQ(h)) && len(HQ(h)) == old(len(HQ(h))) + 1
+//@   ensures as(x, "*queueItem").heapIdx >= 0 && as(x, "*queueItem").heapIdx < len(HQ(h)) && HQ(h)[as(x, "*queueItem").heapIdx] == as(x, "*queueItem")
+//@   ensures forall k int :: 0 <= k && k < old(len(HQ(h))) ==> old(HQ(h)[k]).heapIdx >= 0 && old(HQ(h)[k]).heapIdx < len(HQ(h)) && HQ(h)[old(HQ(h)[k]).heapIdx] == old(HQ(h)[k])
+//@   ensures forall p *queueItem :: {p.heapIdx} p != nil && p != as(x, "*queueItem") && old(p.heapIdx) < 0 ==> p.heapIdx == old(p.heapIdx)
+//@   assigns deref(as(h, "*pqueue")), anyelem("*queueItem"), fieldof(queueItem, heapIdx)
+
+// Pop: takes out one item that was on the heap and marks it off-heap; every
+// other item stays on the heap.
+//@ func heap.Pop
+//@   requires isPQ(h) && okPQ(HQ(h)) && len(HQ(h)) > 0
+//@   ensures typeis(result, "*queueItem") && as(result, "*queueItem") != nil && as(result, "*queueItem").heapIdx == -1
+//@   ensures exists k int :: 0 <= k && k < old(len(HQ(h))) && as(result, "*queueItem") == old(HQ(h)[k])
+//@   ensures okPQ(HQ(h)) && len(HQ(h)) == old(len(HQ(h))) - 1
+//@   ensures forall k int :: 0 <= k && k < old(len(HQ(h))) && old(HQ(h)[k]) != as(result, "*queueItem") ==> old(HQ(h)[k]).heapIdx >= 0 && old(HQ(h)[k]).heapIdx < len(HQ(h)) && HQ(h)[old(HQ(h)[k]).heapIdx] == old(HQ(h)[k])
+//@   ensures forall p *queueItem :: {p.heapIdx} p != nil && old(p.heapIdx) < 0 ==> p.heapIdx == old(p.heapIdx)
+//@   assigns deref(as(h, "*pqueue")), HQ(h)[*], fieldof(queueItem, heapIdx)
+
+// Fix: re-establishes the order after the item in slot i changed; the same
+// items stay on the heap.
+//@ func heap.Fix
+//@   requires isPQ(h) && okPQ(HQ(h)) && 0 <= i && i < len(HQ(h))
+//@   ensures okPQ(HQ(h)) && len(HQ(h)) == old(len(HQ(h)))
+//@   ensures forall k int :: 0 <= k && k < old(len(HQ(h))) ==> old(HQ(h)[k]).heapIdx >= 0 && old(HQ(h)[k]).heapIdx < len(HQ(h)) && HQ(h)[old(HQ(h)[k]).heapIdx] == old(HQ(h)[k])
+//@   ensures forall p *queueItem :: {p.heapIdx} p != nil && old(p.heapIdx) < 0 ==> p.heapIdx == old(p.heapIdx)
+//@   assigns HQ(h)[*], fieldof(queueItem, heapIdx)
